@@ -743,10 +743,30 @@ def sec_pair(ctx):
         changed.append("Pair")
 
 
+@section("Iso")
+def sec_iso(ctx):
+    changed = ctx["changed"]
+    sys.path.insert(0, os.path.dirname(os.path.abspath(__file__)))
+    import extract_iso
+    manifest.extend(extract_iso.emit(REPO, GEN, ExtractError))
+    if getattr(extract_iso, "CHANGED", False):
+        changed.append("Iso")
+
+
+@section("Hash")
+def sec_hash(ctx):
+    changed = ctx["changed"]
+    sys.path.insert(0, os.path.dirname(os.path.abspath(__file__)))
+    import extract_hash
+    manifest.extend(extract_hash.emit(REPO, GEN, ExtractError))
+    if getattr(extract_hash, "CHANGED", False):
+        changed.append("HashGlue")
+
+
 def main():
     os.makedirs(GEN, exist_ok=True)
     ctx = {"changed": []}
-    for sec in (sec_fields, sec_montprog, sec_derive, sec_fqconsts, sec_curve, sec_maps, sec_chains, sec_arith, sec_enc, sec_pair):
+    for sec in (sec_fields, sec_montprog, sec_derive, sec_fqconsts, sec_curve, sec_maps, sec_chains, sec_arith, sec_enc, sec_pair, sec_iso, sec_hash):
         sec(ctx)
     changed = ctx["changed"]
     with open(os.path.join(VERIF, "gen_manifest.json"), "w") as f:
